@@ -1,4 +1,6 @@
 import ApolloModel.Model.ParserCore
+import ApolloModel.Proofs.Lexer
+import ApolloModel.Proofs.LexerEof
 /-
 The primitives of parser/mod.rs as `PI` values (each with its invariant/frame/no-panic proof).
 -/
@@ -44,27 +46,6 @@ def lexNext (l : LexSt) : Option LexOut × LexSt :=
         | .err d => (some (.err d l.pos), l')
         | .limit => (some (.err [] l.pos), l')     -- unreachable: `advance` never yields `.limit`
 
-theorem advance_concat' (src : Lex.Str) : (advance src).1.data ++ (advance src).2 = src := by
-  have runD_concat' : ∀ (src : Lex.Str) (st : State) (kind : Kind) (e : Bool) (acc : Lex.Str),
-      (runD st kind e acc src).1.data ++ (runD st kind e acc src).2 = acc ++ src := by
-    intro src
-    induction src with
-    | nil =>
-      intro st kind e acc
-      have : (eofItem st kind acc).data = acc := by cases st <;> rfl
-      simp [runD, this]
-    | cons c rest ih =>
-      intro st kind e acc
-      unfold runD
-      cases h : step st kind e acc c with
-      | goto st' k' e' =>
-        simp only []
-        rw [ih st' k' e' (acc ++ [c])]
-        simp
-      | incl o => cases o <;> simp [Out.mk, Item.data]
-      | excl o => cases o <;> simp [Out.mk, Item.data]
-  simpa [advance] using runD_concat' src .start .eof false []
-
 /-- whatever the lexer hands out was taken from the front of the unlexed input -/
 theorem lexNext_text (l : LexSt) :
     (match (lexNext l).1 with | some o => o.text | none => []) ++ (lexNext l).2.src = l.src := by
@@ -79,7 +60,7 @@ theorem lexNext_text (l : LexSt) :
       | nil => simp [LexOut.text]
       | cons c rest =>
         simp only []
-        have h := advance_concat' (c :: rest)
+        have h := Lex.advance_concat (c :: rest)
         cases hr : (advance (c :: rest)).1 with
         | tok k d => simp only [hr, Item.data] at h; simpa [LexOut.text] using h
         | err d => simp only [hr, Item.data] at h; simpa [LexOut.text] using h
@@ -102,6 +83,73 @@ theorem lexNext_limit_finished (l : LexSt) (i : Nat) (h : (lexNext l).1 = some (
       | cons c rest =>
         simp only [hs] at h
         cases hr : (advance (c :: rest)).1 <;> simp [hr] at h
+
+
+theorem lexNext_limit_eq (l : LexSt) : (lexNext l).2.limit = l.limit := by
+  unfold lexNext
+  by_cases hf : l.finished = true
+  · simp [hf]
+  · simp only [hf, Bool.false_eq_true, if_false]
+    by_cases hc : (lexCheck l).1 = true
+    · simp [hc]
+    · simp only [hc, Bool.false_eq_true, if_false]
+      cases hs : l.src with
+      | nil => simp
+      | cons c rest => simp only []; cases (advance (c :: rest)).1 <;> rfl
+
+/-- without a limit the lexer finishes only on empty input -/
+def LexDone (l : LexSt) : Prop := l.finished = true → l.limit = none → l.src = []
+
+theorem lexCheck_no_limit (l : LexSt) (h : l.limit = none) : (lexCheck l).1 = false := by
+  simp [lexCheck, h]
+
+theorem lexNext_done (l : LexSt) (h : LexDone l) : LexDone (lexNext l).2 := by
+  unfold lexNext
+  by_cases hf : l.finished = true
+  · simpa [hf] using h
+  · simp only [hf, Bool.false_eq_true, if_false]
+    by_cases hc : (lexCheck l).1 = true
+    · simp only [hc, if_true]
+      intro _ hl
+      have := lexCheck_no_limit l hl
+      simp [hc] at this
+    · simp only [hc, Bool.false_eq_true, if_false]
+      cases hs : l.src with
+      | nil => intro _ _; simp [hs]
+      | cons c rest =>
+        simp only []
+        cases (advance (c :: rest)).1 <;> (intro hfin _; simp [hf] at hfin)
+
+/-- the lexer hands out an EOF token only at the end of the input, and it is empty -/
+theorem lexNext_eof (l : LexSt) (t : Tok) (h : (lexNext l).1 = some (.tok t)) (hk : t.kind = .eof) :
+    t.data = [] ∧ (lexNext l).2.src = [] ∧ (lexNext l).2.finished = true := by
+  unfold lexNext at h ⊢
+  by_cases hf : l.finished = true
+  · simp [hf] at h
+  · simp only [hf, Bool.false_eq_true, if_false] at h ⊢
+    by_cases hc : (lexCheck l).1 = true
+    · simp [hc] at h
+    · simp only [hc, Bool.false_eq_true, if_false] at h ⊢
+      cases hs : l.src with
+      | nil =>
+        simp only [hs, Option.some.injEq, LexOut.tok.injEq] at h ⊢
+        subst h
+        simp
+      | cons c rest =>
+        simp only [hs] at h
+        cases hr : (advance (c :: rest)).1 with
+        | tok k d =>
+          simp only [hr, Option.some.injEq, LexOut.tok.injEq] at h
+          subst h
+          exact absurd hk (Lex.advance_kind_ne_eof c rest k d hr)
+        | err d => simp [hr] at h
+        | limit => simp [hr] at h
+
+/-- the unlexed input only ever shrinks to a suffix; in particular it stays empty -/
+theorem lexNext_src_nil (l : LexSt) (h : l.src = []) : (lexNext l).2.src = [] := by
+  have := lexNext_text l
+  rw [h] at this
+  exact (List.append_eq_nil_iff.mp this).2
 
 end Apollo.Parse
 
@@ -133,22 +181,32 @@ structure NextSpec (s : PState) (r : Option Tok × PState) : Prop where
   recLimit : r.2.recLimit = s.recLimit
   original : r.2.original = s.original
   dropped : r.2.dropped = s.dropped
+  limit : r.2.lx.limit = s.lx.limit
   text : pendingText r.2.pending ++ curText r.1 ++ r.2.lx.src = pendingText s.pending ++ s.lx.src
+  done : LexDone s.lx → LexDone r.2.lx
+  eof : ∀ t, r.1 = some t → t.kind = .eof → t.data = [] ∧ r.2.lx.src = [] ∧ r.2.lx.finished = true
+  accept : (s.acceptErrors = false → s.errors ≠ []) → (r.2.acceptErrors = false → r.2.errors ≠ [])
   frozen : s.acceptErrors = false ∧ s.lx.finished = true →
     r.2.errors = s.errors ∧ r.2.acceptErrors = false ∧ r.2.lx.finished = true
 
 theorem nextTokenRaw_spec : ∀ (fuel : Nat) (s : PState), NextSpec s (nextTokenRaw fuel s)
-  | 0, s => ⟨rfl, rfl, rfl, rfl, rfl, rfl, by simp [nextTokenRaw, curText], fun h => ⟨rfl, h.1, h.2⟩⟩
+  | 0, s => ⟨rfl, rfl, rfl, rfl, rfl, rfl, rfl, by simp [nextTokenRaw, curText], fun h => h,
+      fun t h => by simp [nextTokenRaw] at h, fun h => h, fun h => ⟨rfl, h.1, h.2⟩⟩
   | fuel + 1, s => by
     have ht := lexNext_text s.lx
+    have hlim := lexNext_limit_eq s.lx
+    have hdone := lexNext_done s.lx
+    have heof := lexNext_eof s.lx
     unfold nextTokenRaw
     cases hl : lexNext s.lx with
     | mk o l' =>
-      rw [hl] at ht
+      rw [hl] at ht hlim hdone heof
+      simp only [] at hlim hdone heof
       cases o with
       | none =>
         simp only [] at ht ⊢
-        refine ⟨rfl, rfl, rfl, rfl, rfl, rfl, by simpa [curText] using congrArg (pendingText s.pending ++ ·) ht, ?_⟩
+        refine ⟨rfl, rfl, rfl, rfl, rfl, rfl, hlim, by simpa [curText] using congrArg (pendingText s.pending ++ ·) ht,
+          hdone, fun t h => by simp at h, fun h => h, ?_⟩
         intro h
         have := lexNext_finished s.lx h.2
         rw [hl] at this
@@ -158,17 +216,22 @@ theorem nextTokenRaw_spec : ∀ (fuel : Nat) (s : PState), NextSpec s (nextToken
         cases out with
         | tok t =>
           simp only [LexOut.text] at ht ⊢
-          refine ⟨rfl, rfl, rfl, rfl, rfl, rfl, by simp [curText, ← ht], ?_⟩
-          intro h
-          have := lexNext_finished s.lx h.2
-          rw [hl] at this
-          simp at this
+          refine ⟨rfl, rfl, rfl, rfl, rfl, rfl, hlim, by simp [curText, ← ht], hdone, ?_, fun h => h, ?_⟩
+          · intro t' h' hk
+            simp only [Option.some.injEq] at h'
+            subst h'
+            exact heof t rfl hk
+          · intro h
+            have := lexNext_finished s.lx h.2
+            rw [hl] at this
+            simp at this
         | err d i =>
           simp only [LexOut.text] at ht ⊢
           have ih := nextTokenRaw_spec fuel { s with
             lx := l', pending := if d.isEmpty then s.pending else s.pending ++ [.error d],
             errors := s.errors ++ [⟨i, utf8Len d, .lexer⟩] }
-          refine ⟨ih.builder, ih.current, ih.recCur, ih.recLimit, ih.original, ih.dropped, ?_, ?_⟩
+          refine ⟨ih.builder, ih.current, ih.recCur, ih.recLimit, ih.original, ih.dropped, ih.limit.trans hlim, ?_,
+            fun h => ih.done (hdone h), ih.eof, fun _ => ih.accept (fun _ => by simp), ?_⟩
           · rw [ih.text]
             simp only []
             by_cases hd : d.isEmpty = true
@@ -185,7 +248,8 @@ theorem nextTokenRaw_spec : ∀ (fuel : Nat) (s : PState), NextSpec s (nextToken
         | limit i =>
           simp only [LexOut.text] at ht ⊢
           have ih := nextTokenRaw_spec fuel { s with lx := l', acceptErrors := false, errors := s.errors ++ [⟨i, 0, .limit⟩] }
-          refine ⟨ih.builder, ih.current, ih.recCur, ih.recLimit, ih.original, ih.dropped, ?_, ?_⟩
+          refine ⟨ih.builder, ih.current, ih.recCur, ih.recLimit, ih.original, ih.dropped, ih.limit.trans hlim, ?_,
+            fun h => ih.done (hdone h), ih.eof, fun _ => ih.accept (fun _ => by simp), ?_⟩
           · rw [ih.text]; simp at ht; simp [ht]
           · intro h
             have := lexNext_finished s.lx h.2
@@ -194,11 +258,19 @@ theorem nextTokenRaw_spec : ∀ (fuel : Nat) (s : PState), NextSpec s (nextToken
 
 theorem nextToken_spec (s : PState) : NextSpec s (nextToken s) := nextTokenRaw_spec _ s
 
-end Apollo.Parse
+/-- the two lexer clauses of `Inv` survive any step that keeps the lexer and keeps or clears `current` -/
+theorem Inv.lexFields {s : PState} (h : Inv s) (cur' : Option Tok)
+    (hc : ∀ t, cur' = some t → s.current = some t) :
+    (s.lx.finished = true → s.lx.limit = none → s.lx.src = []) ∧
+    (∀ t, cur' = some t → t.kind = .eof → t.data = [] ∧ s.lx.src = [] ∧ s.lx.finished = true) :=
+  ⟨h.lexDone, fun t ht hk => h.eofTok t (hc t ht) hk⟩
 
-namespace Apollo.Parse
-open Apollo.Rowan hiding Str
-open Apollo.Lex hiding Str
+/-- frame of a step that leaves the builder's parents, the counters and the error list alone -/
+theorem Frame.simple {s s' : PState} (hp : s'.builder.parents = s.builder.parents)
+    (hch : ∃ added, s'.builder.children = s.builder.children ++ added)
+    (h1 : s'.recCur = s.recCur) (h2 : s'.recLimit = s.recLimit) (h3 : s'.original = s.original)
+    (h4 : s'.lx = s.lx) (h5 : s'.errors = s.errors) (h6 : s'.acceptErrors = s.acceptErrors) : Frame s s' :=
+  ⟨hp, hch, h1, h2, h3, by rw [h4], fun hz => ⟨h5, by rw [h6]; exact hz.1, by rw [h4]; exact hz.2⟩⟩
 
 /-! ### token plumbing -/
 
@@ -214,15 +286,18 @@ def peekToken : PI (Option Tok) :=
     | none =>
       simp only [hc]
       have sp := nextToken_spec s
-      refine ⟨⟨?_, ?_⟩, ⟨?_, ⟨[], ?_⟩, sp.recCur, sp.recLimit, sp.original, ?_⟩⟩
+      refine ⟨⟨?_, ?_, ?_, ?_, sp.accept h.errNonempty⟩, ⟨?_, ⟨[], ?_⟩, sp.recCur, sp.recLimit, sp.original, sp.limit, ?_⟩⟩
       · intro hd
-        have h1 := h.1 (by simpa [sp.dropped] using hd)
+        have h1 := h.text (by simpa [sp.dropped] using hd)
         simp only [hc, curText, List.append_nil] at h1
         simp only [sp.builder]
         rw [List.append_assoc, List.append_assoc, ← List.append_assoc (pendingText _), sp.text,
           ← List.append_assoc, h1]
         exact sp.original.symm
-      · simpa [sp.builder] using h.2
+      · simpa [sp.builder] using h.parents
+      · exact sp.done h.lexDone
+      · intro t ht hk
+        exact sp.eof t ht hk
       · simp [sp.builder]
       · simp [sp.builder]
       · exact sp.frozen⟩
@@ -250,9 +325,10 @@ def moveCurToPending : PI Bool :=
     | some t =>
       simp only [hc]
       split
-      · refine ⟨⟨?_, h.2⟩, ⟨rfl, ⟨[], by simp⟩, rfl, rfl, rfl, fun hf => ⟨rfl, hf.1, hf.2⟩⟩⟩
+      · have lf := h.lexFields none (by simp)
+        refine ⟨⟨?_, h.parents, lf.1, lf.2, h.errNonempty⟩, Frame.simple rfl ⟨[], by simp⟩ rfl rfl rfl rfl rfl rfl⟩
         intro hd
-        have h1 := h.1 hd
+        have h1 := h.text hd
         simp only [hc, curText] at h1
         simp only [pendingText_append, pendingText, Pending.text, curText, List.append_nil, List.append_assoc] at h1 ⊢
         exact h1
@@ -285,13 +361,14 @@ def pushIgnored : PI Unit :=
   ⟨fun s => .ok () { s with builder := { s.builder with children := s.builder.children ++ s.pending.map pendingElem }, pending := [] },
    by
     intro s h
-    refine ⟨⟨?_, ?_⟩, ⟨rfl, ⟨_, rfl⟩, rfl, rfl, rfl, fun hf => ⟨rfl, hf.1, hf.2⟩⟩⟩
+    have lf := h.lexFields s.current (fun t ht => ht)
+    refine ⟨⟨?_, ?_, lf.1, lf.2, h.errNonempty⟩, Frame.simple rfl ⟨_, rfl⟩ rfl rfl rfl rfl rfl rfl⟩
     · intro hd
-      have h1 := h.1 hd
+      have h1 := h.text hd
       simp only [textList_append, textList_pendingElems, pendingText, List.append_nil] at h1 ⊢
       exact h1
     · intro p hp
-      have := h.2 p hp
+      have := h.parents p hp
       simp only [List.length_append]
       omega⟩
 
@@ -310,15 +387,16 @@ def moveCurToTree (kind : SK) : PI Unit :=
     | none => simp only [hc]; exact ⟨h, Frame.refl s⟩
     | some t =>
       simp only [hc]
-      refine ⟨⟨?_, ?_⟩, ⟨rfl, ⟨_, by rw [List.append_assoc]⟩, rfl, rfl, rfl, fun hf => ⟨rfl, hf.1, hf.2⟩⟩⟩
+      have lf := h.lexFields none (by simp)
+      refine ⟨⟨?_, ?_, lf.1, lf.2, h.errNonempty⟩, Frame.simple rfl ⟨_, by rw [List.append_assoc]⟩ rfl rfl rfl rfl rfl rfl⟩
       · intro hd
-        have h1 := h.1 hd
+        have h1 := h.text hd
         simp only [hc, curText] at h1
         simp only [textList_append, textList_pendingElems, textList_tok, pendingText, curText, List.append_nil,
           List.append_assoc] at h1 ⊢
         exact h1
       · intro p hp
-        have := h.2 p hp
+        have := h.parents p hp
         simp only [List.length_append]
         omega⟩
 
@@ -333,25 +411,23 @@ def bump (kind : SK) : PI Unit := do
   eat kind
   skipIgnored
 
-end Apollo.Parse
-
-namespace Apollo.Parse
-open Apollo.Rowan hiding Str
-open Apollo.Lex hiding Str
-
 /-! ### errors -/
 
 /-- a state change that only touches `errors` / `acceptErrors` and respects the freeze -/
 def errUpdate (f : PState → List PErr × Bool)
-    (hf : ∀ s, s.acceptErrors = false → f s = (s.errors, false)) : PI Unit :=
+    (hf : ∀ s, s.acceptErrors = false → f s = (s.errors, false))
+    (hf2 : ∀ s, (s.acceptErrors = false → s.errors ≠ []) → (f s).2 = false → (f s).1 ≠ []) : PI Unit :=
   ⟨fun s => .ok () { s with errors := (f s).1, acceptErrors := (f s).2 },
-   fun s h => ⟨⟨h.1, h.2⟩, ⟨rfl, ⟨[], by simp⟩, rfl, rfl, rfl,
+   fun s h =>
+    have lf := h.lexFields s.current (fun t ht => ht)
+    ⟨⟨h.text, h.parents, lf.1, lf.2, hf2 s h.errNonempty⟩, ⟨rfl, ⟨[], by simp⟩, rfl, rfl, rfl, rfl,
      fun hz => by simp [hf s hz.1, hz.2]⟩⟩⟩
 
 /-- `Parser::push_err` -/
 def pushErr (e : PErr) : PI Unit :=
   errUpdate (fun s => (if s.acceptErrors then s.errors ++ [e] else s.errors, s.acceptErrors))
     (fun s h => by simp [h])
+    (fun s h h2 => by simp only [] at h2; simp only [h2, Bool.false_eq_true, if_false]; exact h h2)
 
 def tokErr (t : Tok) : PErr :=
   if t.kind == .eof then ⟨t.index, 0, .eof⟩ else ⟨t.index, utf8Len t.data, .syntax⟩
@@ -371,6 +447,11 @@ def limitErr : PI Unit := do
   | some t =>
     errUpdate (fun s => (if s.acceptErrors then s.errors ++ [⟨t.index, 0, .limit⟩] else s.errors, false))
       (fun s h => by simp [h])
+      (fun s h _ => by
+        by_cases ha : s.acceptErrors = true
+        · simp [ha]
+        · have ha' : s.acceptErrors = false := by simpa using ha
+          simp only [ha', Bool.false_eq_true, if_false]; exact h ha')
   | none => pure ()
 
 /-- `Parser::err_and_pop` -/
@@ -422,12 +503,6 @@ def peekTokenN (n : Nat) : PI (Option Tok) :=
 def peekN (n : Nat) : PI (Option Kind) := do pure ((← peekTokenN n).map (·.kind))
 def peekDataN (n : Nat) : PI (Option Str) := do pure ((← peekTokenN n).map (·.data))
 
-end Apollo.Parse
-
-namespace Apollo.Parse
-open Apollo.Rowan hiding Str
-open Apollo.Lex hiding Str
-
 /-! ### nodes -/
 
 theorem textList_take_drop (k : SK) (n : Nat) (cs : List Elem) :
@@ -464,12 +539,12 @@ def withNode {α : Type} (kind : SK) (body : PI α) : PI α :=
       obtain ⟨hi1, hf1⟩ := h1
       -- the state after `builder.start_node`
       have hi1' : Inv (rawStartNode kind s1) := by
-        refine ⟨hi1.1, ?_⟩
+        refine ⟨hi1.text, ?_, hi1.lexDone, hi1.eofTok, hi1.errNonempty⟩
         intro p hp
         simp only [rawStartNode, Builder.startNode, List.mem_cons] at hp ⊢
         rcases hp with rfl | hp
         · exact Nat.le_refl _
-        · exact hi1.2 p hp
+        · exact hi1.parents p hp
       have h2 := (skipIgnored >>= fun _ => body).ok (rawStartNode kind s1) hi1'
       cases hr2 : (skipIgnored >>= fun _ => body).run (rawStartNode kind s1) with
       | abort w => simp [hr2, Post]
@@ -486,13 +561,13 @@ def withNode {α : Type} (kind : SK) (body : PI α) : PI α :=
           rw [hadd]; simp
         have hdrop : s2.builder.children.drop s1.builder.children.length = added := by
           rw [hadd]; simp
-        refine ⟨⟨?_, ?_⟩, ⟨?_, ?_, ?_, ?_, ?_, ?_⟩⟩
+        refine ⟨⟨?_, ?_, hi2.lexDone, hi2.eofTok, hi2.errNonempty⟩, ⟨?_, ?_, ?_, ?_, ?_, ?_, ?_⟩⟩
         · intro hd
-          have := hi2.1 hd
+          have := hi2.text hd
           simp only [textList_take_drop]
           exact this
         · intro p hp'
-          have := hi1.2 p hp'
+          have := hi1.parents p hp'
           simp only [htake, List.length_append, List.length_cons, List.length_nil]
           omega
         · exact hf1.parents
@@ -501,6 +576,7 @@ def withNode {α : Type} (kind : SK) (body : PI α) : PI α :=
         · exact (hf2.recCur.trans (by rfl : (rawStartNode kind s1).recCur = s1.recCur)).trans hf1.recCur
         · exact (hf2.recLimit.trans (by rfl : (rawStartNode kind s1).recLimit = s1.recLimit)).trans hf1.recLimit
         · exact (hf2.original.trans (by rfl : (rawStartNode kind s1).original = s1.original)).trans hf1.original
+        · exact (hf2.limit.trans (by rfl : (rawStartNode kind s1).lx.limit = s1.lx.limit)).trans hf1.limit
         · intro hz
           have hb := hf1.frozen hz
           have hc := hf2.frozen (by exact ⟨hb.2.1, hb.2.2⟩)
@@ -525,14 +601,14 @@ def withRec {α : Type} (onLimit : PI α) (body : PI α) : PI α :=
     intro s h
     simp only []
     split
-    · have := onLimit.ok { s with recHigh := if s.recCur + 1 > s.recHigh then s.recCur + 1 else s.recHigh } ⟨h.1, h.2⟩
+    · have := onLimit.ok { s with recHigh := if s.recCur + 1 > s.recHigh then s.recCur + 1 else s.recHigh } ⟨h.text, h.parents, h.lexDone, h.eofTok, h.errNonempty⟩
       cases hr : onLimit.run { s with recHigh := if s.recCur + 1 > s.recHigh then s.recCur + 1 else s.recHigh } with
       | abort w => simp [Post]
       | panic m => simp [hr, Post] at this
       | ok a s' =>
         simp only [hr, Post] at this ⊢
-        exact ⟨this.1, ⟨this.2.parents, this.2.children, this.2.recCur, this.2.recLimit, this.2.original, this.2.frozen⟩⟩
-    · have := body.ok { s with recCur := s.recCur + 1, recHigh := if s.recCur + 1 > s.recHigh then s.recCur + 1 else s.recHigh } ⟨h.1, h.2⟩
+        exact ⟨this.1, ⟨this.2.parents, this.2.children, this.2.recCur, this.2.recLimit, this.2.original, this.2.limit, this.2.frozen⟩⟩
+    · have := body.ok { s with recCur := s.recCur + 1, recHigh := if s.recCur + 1 > s.recHigh then s.recCur + 1 else s.recHigh } ⟨h.text, h.parents, h.lexDone, h.eofTok, h.errNonempty⟩
       cases hr : body.run { s with recCur := s.recCur + 1, recHigh := if s.recCur + 1 > s.recHigh then s.recCur + 1 else s.recHigh } with
       | abort w => simp [Post]
       | panic m => simp [hr, Post] at this
@@ -541,7 +617,7 @@ def withRec {α : Type} (onLimit : PI α) (body : PI α) : PI α :=
         have hrc : s'.recCur = s.recCur + 1 := this.2.recCur
         have hne : ¬ s'.recCur = 0 := by omega
         simp only [hne, if_false, Post]
-        exact ⟨⟨this.1.1, this.1.2⟩, ⟨this.2.parents, this.2.children, by simp [hrc], this.2.recLimit, this.2.original, this.2.frozen⟩⟩⟩
+        exact ⟨⟨this.1.text, this.1.parents, this.1.lexDone, this.1.eofTok, this.1.errNonempty⟩, ⟨this.2.parents, this.2.children, by simp [hrc], this.2.recLimit, this.2.original, this.2.limit, this.2.frozen⟩⟩⟩
 
 /-! ### `checkpoint_node` … `wrap_node` (ty.rs) -/
 
@@ -594,7 +670,7 @@ def wrapIf {α : Type} (kind : SK) (body : PI α) (cond : α → PI Bool) (inner
           have hlen : s1.builder.checkpoint ≤ s2.builder.children.length := by
             simp [Builder.checkpoint, hadd]
           have hfirst : ∀ p ∈ s2.builder.parents, p.2 ≤ s1.builder.checkpoint := by
-            intro p hp; rw [hf2.parents] at hp; exact hi1.2 p hp
+            intro p hp; rw [hf2.parents] at hp; exact hi1.parents p hp
           -- start_node_at succeeds
           have hsn : s2.builder.startNodeAt s1.builder.checkpoint kind =
               some { s2.builder with parents := (kind, s1.builder.checkpoint) :: s2.builder.parents } := by
@@ -608,12 +684,12 @@ def wrapIf {α : Type} (kind : SK) (body : PI α) (cond : α → PI Bool) (inner
               simp only [ge_iff_le, this, if_true]
           simp only [hsn]
           have hi2' : Inv { s2 with builder := { s2.builder with parents := (kind, s1.builder.checkpoint) :: s2.builder.parents } } := by
-            refine ⟨hi2.1, ?_⟩
+            refine ⟨hi2.text, ?_, hi2.lexDone, hi2.eofTok, hi2.errNonempty⟩
             intro p hp
             simp only [List.mem_cons] at hp
             rcases hp with rfl | hp
             · exact hlen
-            · exact hi2.2 p hp
+            · exact hi2.parents p hp
           have h3 := inner.ok _ hi2'
           cases hr3 : inner.run { s2 with builder := { s2.builder with parents := (kind, s1.builder.checkpoint) :: s2.builder.parents } } with
           | abort w => simp [Post]
@@ -631,14 +707,14 @@ def wrapIf {α : Type} (kind : SK) (body : PI α) (cond : α → PI Bool) (inner
               rw [hc3]; simp [Builder.checkpoint]
             have hdrop : s3.builder.children.drop s1.builder.checkpoint = added ++ added3 := by
               rw [hc3]; simp [Builder.checkpoint]
-            refine ⟨⟨?_, ?_⟩, ⟨?_, ?_, ?_, ?_, ?_, ?_⟩⟩
+            refine ⟨⟨?_, ?_, hi3.lexDone, hi3.eofTok, hi3.errNonempty⟩, ⟨?_, ?_, ?_, ?_, ?_, ?_, ?_⟩⟩
             · intro hd
-              have := hi3.1 hd
+              have := hi3.text hd
               simp only [textList_take_drop]
               exact this
             · intro p hp'
               have hp1 : p ∈ s1.builder.parents := by rw [← hf2.parents]; exact hp'
-              have := hi1.2 p hp1
+              have := hi1.parents p hp1
               simp only [htake, List.length_append, List.length_cons, List.length_nil]
               omega
             · exact hf2.parents.trans hf1.parents
@@ -647,6 +723,7 @@ def wrapIf {α : Type} (kind : SK) (body : PI α) (cond : α → PI Bool) (inner
             · exact (hf3.recCur.trans hf2.recCur).trans hf1.recCur
             · exact (hf3.recLimit.trans hf2.recLimit).trans hf1.recLimit
             · exact (hf3.original.trans hf2.original).trans hf1.original
+            · exact (hf3.limit.trans hf2.limit).trans hf1.limit
             · intro hz
               have hb := hf1.frozen hz
               have hc := hf2.frozen ⟨hb.2.1, hb.2.2⟩
@@ -661,13 +738,19 @@ def popDrop : PI (Option Tok) :=
    by
     intro s h
     cases hc : s.current with
-    | none => simp only [hc]; exact ⟨⟨fun hd => by simpa [hc] using h.1 hd, h.2⟩, ⟨rfl, ⟨[], by simp⟩, rfl, rfl, rfl, fun hz => ⟨rfl, hz.1, hz.2⟩⟩⟩
+    | none =>
+      simp only [hc]
+      have lf := h.lexFields none (by simp)
+      refine ⟨⟨fun hd => ?_, h.parents, lf.1, lf.2, h.errNonempty⟩, Frame.simple rfl ⟨[], by simp⟩ rfl rfl rfl rfl rfl rfl⟩
+      have := h.text hd
+      simpa [hc] using this
     | some t =>
       simp only [hc]
-      refine ⟨⟨?_, h.2⟩, ⟨rfl, ⟨[], by simp⟩, rfl, rfl, rfl, fun hz => ⟨rfl, hz.1, hz.2⟩⟩⟩
+      have lf := h.lexFields none (by simp)
+      refine ⟨⟨?_, h.parents, lf.1, lf.2, h.errNonempty⟩, Frame.simple rfl ⟨[], by simp⟩ rfl rfl rfl rfl rfl rfl⟩
       intro hd
       simp only [Bool.or_eq_false_iff, Bool.not_eq_false'] at hd
-      have h1 := h.1 hd.1
+      have h1 := h.text hd.1
       have ht : t.data = [] := by simpa using hd.2
       simp only [hc, curText, ht, List.append_nil] at h1
       simpa [curText] using h1⟩
@@ -725,11 +808,15 @@ def parseSeparatedList (separator : Kind) (separatorSyntax : SK) (run : PI Unit)
 
 /-! ### recursion counter facts are in `withRec`; the top-level assertion of `document()` -/
 
-/-- `assert_eq!(p.recursion_limit.current, 0, "unbalanced limit increment / decrement")` -/
-def recCurIsZero : PI Bool := ⟨fun s => .ok (s.recCur == 0) s, fun s h => ⟨h, Frame.refl s⟩⟩
+/-- `assert_eq!(p.recursion_limit.current, 0, "unbalanced limit increment / decrement")`, recorded in
+    the `deadBranch` ghost flag instead of panicking (it cannot fail: `Frame.recCur`) -/
+def assertRecZero : PI Unit :=
+  ⟨fun s => .ok () { s with deadBranch := s.deadBranch || !(s.recCur == 0) },
+   fun s h => ⟨⟨h.text, h.parents, h.lexDone, h.eofTok, h.errNonempty⟩, Frame.simple rfl ⟨[], by simp⟩ rfl rfl rfl rfl rfl rfl⟩⟩
 
 /-- a branch that the Rust code can never take (records the fact in the ghost flag) -/
 def deadBranch : PI Unit :=
-  ⟨fun s => .ok () { s with deadBranch := true }, fun s h => ⟨⟨h.1, h.2⟩, ⟨rfl, ⟨[], by simp⟩, rfl, rfl, rfl, fun hz => ⟨rfl, hz.1, hz.2⟩⟩⟩⟩
+  ⟨fun s => .ok () { s with deadBranch := true },
+   fun s h => ⟨⟨h.text, h.parents, h.lexDone, h.eofTok, h.errNonempty⟩, Frame.simple rfl ⟨[], by simp⟩ rfl rfl rfl rfl rfl rfl⟩⟩
 
 end Apollo.Parse
